@@ -21,7 +21,8 @@ Init == tid \in 1..Len(Traces) /\ l = 1 /\ sel = <<>> /\ infit = FALSE /\ verdic
 Reject(c, x) == verdict' = <<"rejected", c, l>> /\ ctx' = x /\ UNCHANGED <<sel, infit>>
 NoCtx == [none |-> TRUE]
 OffLattice(t) == \E i \in 1..Len(t) : t[i] = -7777777
-Begin(e) == IF e.raised THEN UNCHANGED <<sel, infit, verdict, ctx>>
+Begin(e) == IF e.raised /\ "valid" \in DOMAIN e /\ e.valid THEN Reject("valid-request-rejected", NoCtx)
+            ELSE IF e.raised THEN UNCHANGED <<sel, infit, verdict, ctx>>
             ELSE /\ sel' = IF e.warm THEN sel ELSE e.init
                  /\ infit' = TRUE /\ UNCHANGED <<verdict, ctx>>
 TieCtx(t) == [tied |-> Cardinality(ArgMaxSet(t, Unselected(N, sel))) > 1]
